@@ -22,6 +22,42 @@ fn gen_w1(prop: &str, seed: u64, _tier: Tier) -> Scenario {
     Scenario::W1(crate::w1gen::generate(prop, seed))
 }
 
+fn gen_w3(prop: &str, seed: u64, _tier: Tier) -> Scenario {
+    Scenario::W3(crate::w3gen::generate(prop, seed))
+}
+/// mixes the direct world (W1/W2) with the environment world (W3); the share is fixed per property
+fn gen_mixed(prop: &str, seed: u64, tier: Tier) -> Scenario {
+    let w3_share = match prop {
+        "C05" => 30,
+        "C12" => 20,
+        "C13" => 25,
+        "C14" => 50,
+        _ => 0,
+    };
+    if crate::rng::mix(seed, 0x77_33) % 100 < w3_share {
+        gen_w3(prop, seed, tier)
+    } else {
+        gen_w1(prop, seed, tier)
+    }
+}
+const REAL_ENV: &[&str] = &[
+    "bourse-de Env<L> / MarketEnv<A,L> (step, instruction queue, recorded histories) from /repo working tree, release + overflow-checks + debug-assertions",
+    "bourse-book OrderBook / Market underneath, and stand-alone OrderBook<L> shadows",
+    "rand 0.8.5 SliceRandom::shuffle driven by the harness's SeamRng (real Xoroshiro128** stream, optionally steered through the RngCore seam)",
+];
+fn nt_c08(s: &RunStats) -> bool {
+    p(s, "step_with_trades") >= 1 && p(s, "non_identity_schedule") >= 1
+}
+fn nt_steps(s: &RunStats) -> bool {
+    p(s, "steps") >= 2 && s.ops >= 3
+}
+fn nt_c11(s: &RunStats) -> bool {
+    p(s, "asymmetric_book_recorded") >= 1 && p(s, "steps") >= 2
+}
+fn nt_c14(s: &RunStats) -> bool {
+    (p(s, "op_with_trades") >= 1 && s.ops >= 5) || (p(s, "step_with_trades") >= 1 && p(s, "plain_book_replays") >= 1)
+}
+
 fn nt_c01(s: &RunStats) -> bool {
     p(s, "op_with_trades") >= 1 && p(s, "partial_fill_of_queue_head") >= 1 && p(s, "same_price_fifo_consumed_2plus") + p(s, "same_price_depth_3plus") >= 1
 }
@@ -115,8 +151,73 @@ pub fn specs() -> Vec<CheckSpec> {
             expected_probes: &["modify_reduce_in_place", "modify_equal_volume", "modify_increase", "modify_reprice", "modify_traded", "redundant_modify", "modify_nothing", "drain_probe"],
         },
         CheckSpec {
-            id: "C12",
+            id: "C05",
+            generate: gen_mixed,
+            runs_quick: 120_000,
+            runs_thorough: 6_000_000,
+            rule: "tie mode: histories on OrderBook<L> / Market<A,L> in which the clock is NOT advanced between queue insertions at one price (tie rate up to 80%, narrow alphabet share 60%), with cancels, modifications, aggressors, snapshot reloads and a final drain probe; all monitors of C01-C04/C06 run with the reference engine in FIFO tie semantics; a key-collision twin classifies divergences. Non-trivial = at least one queue insertion that shared (side, price, timestamp) with a resting order",
+            nontrivial: nt_c05,
+            real: REAL_BOOK,
+            stub: NO_STUB,
+            assumptions: &["valid histories as stated in the property, clock discipline deliberately NOT enforced", "environment clause (more instructions than step_size) is covered by the W3 world part of this check", "sampling, not enumeration"],
+            explanation: "clock-tie fault injection; refinement against the FIFO reference engine + all model-free monitors; known-finding classification through an exact twin of the pinned side.rs maps",
+            expected_probes: &["tie_collisions", "drain_probe", "crash_restart", "modify_reprice"],
+        },
+        CheckSpec {
+            id: "C07",
             generate: gen_w1,
+            runs_quick: 40_000,
+            runs_thorough: 2_000_000,
+            rule: "crash-restart fault: at seed-chosen operation boundaries the book / market is serialised (to_string, to_string_pretty, save_json compact/pretty) and restored (from_str / load_json) into the same or another level count; the original is dropped (crash) or kept as a twin; immediate complete-observation equality, lock-step equality under all later operations (reference engine too), drain probe; torn-write fault: every strict prefix of a written file must be rejected by load_json. Non-trivial = at least one restart or twin and at least one trade",
+            nontrivial: nt_c07,
+            real: REAL_BOOK,
+            stub: NO_STUB,
+            assumptions: ASSUME_BOOK,
+            explanation: "crash/restart with only durable (JSON) state surviving, torn-write enumeration per sampled file, twins driven in lock-step",
+            expected_probes: &["crash_restart", "twin_kept", "restart_with_partially_filled_order", "restart_with_unplaced_order", "restart_while_halted", "restart_into_other_level_count", "torn_write_offset", "drain_probe"],
+        },
+        CheckSpec {
+            id: "C08",
+            generate: gen_w3,
+            runs_quick: 60_000,
+            runs_thorough: 3_000_000,
+            rule: "sequences of steps on Env<L> / MarketEnv<A,L> with batches (0..12) of interacting new / cancel / modify instructions (several per order, targets created in the same step, duplicates, stale ids), steered and unsteered shuffles, halts; after each step the schedule is inferred from arrival / end timestamps and trades, and the belief set of reference-engine states consistent with everything observed is carried on; direct clauses (clock = start + step size, step volume = this step's trades) and a real plain OrderBook replaying the inferred schedule. Non-trivial = at least one step with trades and one step processed in a non-identity order",
+            nontrivial: nt_c08,
+            real: REAL_ENV,
+            stub: NO_STUB,
+            assumptions: &["valid histories as stated in the property; batch size <= step size", "at most 5 instructions per step that are not pinned by an arrival timestamp (cancels / modifies); runs whose belief set exceeds 256 states are closed as inconclusive (counted)", "sampling, not enumeration"],
+            explanation: "schedule-belief-set oracle: some permutation of the submitted batch, each instruction processed exactly once at time start+i, must reproduce the complete observation",
+            expected_probes: &["steered_schedule", "steering_hit", "non_identity_schedule", "step_with_trades", "plain_book_replays", "trading_halt"],
+        },
+        CheckSpec {
+            id: "C10",
+            generate: gen_w3,
+            runs_quick: 60_000,
+            runs_thorough: 3_000_000,
+            rule: "interleavings of submissions and steps on Env<L> / MarketEnv<A,L>, the bulk of the instructions being ones that would trade / cancel / re-price at once if applied directly; the complete observation of the environment (live book, market data, orders, trades, every recorded series, cached level-2 snapshot) is compared before and after every single submission: nothing may change except one appended order with status New; cached level_2_data() equals the live book's at construction and after every step. Non-trivial = at least two steps and three instructions",
+            nontrivial: nt_steps,
+            real: REAL_ENV,
+            stub: NO_STUB,
+            assumptions: &["valid histories as stated in the property", "sampling, not enumeration"],
+            explanation: "model-free snapshot comparison around every submission",
+            expected_probes: &["steps", "trading_halt"],
+        },
+        CheckSpec {
+            id: "C11",
+            generate: gen_w3,
+            runs_quick: 60_000,
+            runs_thorough: 3_000_000,
+            rule: "step sequences on asymmetric books (bid and ask volumes, counts and depths differ by construction) for every compiled level count, each asset; after step k every recorded series must have k entries, entry k-1 must equal the value read from the live book (bid series <-> bid getters, level i <-> level i), earlier entries must be unchanged, per-step traded volume = sum of the trades appended / time-stamped in the step. Non-trivial = an asymmetric book recorded and >= 2 steps",
+            nontrivial: nt_c11,
+            real: REAL_ENV,
+            stub: NO_STUB,
+            assumptions: &["valid histories as stated in the property; level counts 1,2,3,5,10,16,24 (Env) and 1,3,10 (MarketEnv) are the compiled instantiations", "sampling, not enumeration"],
+            explanation: "model-free comparison of recorded series with the live book after every step",
+            expected_probes: &["asymmetric_book_recorded", "level_beyond_first_populated", "step_with_traded_volume_recorded"],
+        },
+        CheckSpec {
+            id: "C12",
+            generate: gen_mixed,
             runs_quick: 150_000,
             runs_thorough: 8_000_000,
             rule: "creation requests with arbitrary prices (on/off grid, extremes) through OrderBook and Market at random points of histories, off-grid re-price as a final operation; create Ok <=> price % tick == 0, full-snapshot equality around rejected creations, dense next id, all order prices on the grid, per-level data accounts for resting volume. Non-trivial = at least one off-grid creation request",
@@ -129,7 +230,7 @@ pub fn specs() -> Vec<CheckSpec> {
         },
         CheckSpec {
             id: "C13",
-            generate: gen_w1,
+            generate: gen_mixed,
             runs_quick: 150_000,
             runs_thorough: 8_000_000,
             rule: "histories with the trading switch toggled at arbitrary points (also constructed halted), crossing placements and re-prices while halted, aggressors after resuming; reference engine with the flag + model-free clauses (no trade while halted, rejected market orders leave the book untouched, a toggle alone changes nothing). Non-trivial = at least one halt and one trade",
@@ -139,6 +240,19 @@ pub fn specs() -> Vec<CheckSpec> {
             assumptions: ASSUME_BOOK,
             explanation: "partition/heal style fault (halt/resume) against the reference engine",
             expected_probes: &["trading_halt", "trading_resume", "market_rejected_while_halted", "crossed_book_state"],
+        },
+        CheckSpec {
+            id: "C14",
+            generate: gen_mixed,
+            runs_quick: 80_000,
+            runs_thorough: 4_000_000,
+            rule: "Market<A,L> driven directly (A = 1..4, per-asset tick sizes, colliding local ids) and MarketEnv<A,L> driven through shuffled batches across assets; per-asset stand-alone real OrderBooks receive that asset's operations at the same times (environment: the times inferred by the belief-set oracle); every per-asset and all-asset query must equal the twins' values in asset order, an operation on one asset must leave every other asset's observation unchanged. Non-trivial = trades and >= 5 operations (direct) or a step with trades replayed on the stand-alone books (environment)",
+            nontrivial: nt_c14,
+            real: REAL_ENV,
+            stub: NO_STUB,
+            assumptions: &["valid histories as stated in the property", "sampling, not enumeration"],
+            explanation: "lock-step twins: the multi-asset object against independent single-asset books",
+            expected_probes: &["op_with_trades", "plain_book_replays", "step_with_trades"],
         },
     ]
 }
